@@ -11,6 +11,8 @@ correspondence: (a) model urlsplit/hostname/port vs urllib.parse, (b) model WHAT
                 functions / the real Falcon app, all on a URL grammar (schemes, slashes and backslashes, userinfo,
                 hosts incl. the allowed host as prefix / suffix / userinfo, IPv4 / IPv6 forms, ports, percent-encoding,
                 controls and whitespace, relative forms) plus seeded mutations.
+                Cookie fields include multi-byte strings whose extra UTF-8 bytes are balanced by a tail that reads as
+                uint16 length + URL; the real pack->unpack round trip must return the packed fields.
 oracle        : every 302 the real flow issues (process_request, process_response -> callback) is parsed by Node
                 against the service URL: it must be the IdP endpoint, the service origin, an allowlisted or loopback
                 origin, or unparseable.
@@ -255,7 +257,8 @@ def run(ctx: Any) -> None:
     ctx.rule = ("cases = URL strings from the grammar [wrap][scheme][slashes/backslashes][userinfo][host][port][tail][wrap] with 0-2 seeded "
                 "single-character mutations, plus relative forms and the witnesses; each is (a) split by urllib and the model, (b) resolved by Node "
                 "and the model against an https and an http base, (c) given to both validators (several allowlists / prefixes) and the model, "
-                "(d) sent through the real Falcon PKCE flow (subset). Non-trivial = the URL has an authority for at least one of the two parsers.")
+                "(d) sent through the real Falcon PKCE flow (subset), plus crafted request paths (n multi-byte characters + n-byte ASCII tail = uint16 length + URL) "
+                "driven through the WSGI app itself with the untampered cookie: the final Location must stay on the service origin. Non-trivial = the URL has an authority for at least one of the two parsers.")
 
     ctx.log("proved; a: urlsplit")
     # ---- (a) urlsplit / hostname / port vs urllib ---------------------------------------------------------------
